@@ -60,7 +60,7 @@ def throw_types(rep, prog, X):
                     rep.ok("C17.throw-types", prog, fn, n, "throw %s (derived from std::exception)" % t)
                 else:
                     rep.violation("C17.throw-types", prog, fn, n, "throw of %s" % t,
-                                  "%s throws a %s, which is not derived from std::exception: main's catch(std::exception const&) and cell_divider::divide_cell's handler do not catch it => std::terminate" % (fn["qn"], t))
+                                  "%s throws a %s, which is not publicly derived from std::exception (a private or protected base does not make a handler match): main's catch(std::exception const&) and cell_divider::divide_cell's handler do not catch it => std::terminate" % (fn["qn"], t))
 
 
 def main_catches(rep, prog, X):
